@@ -126,6 +126,9 @@ EventReportBetween(lo, hi, nb, re) ==
 \* the implicit bucket is a bucket of the report like any other (Histogram::counts() ends with it)
 InfBucketLow(lo, nb, re) == nb = 0 \/ lo.b[nb + 1] <= re.b[nb + 1]
 InfBucketHigh(hi, nb, re) == nb = 0 \/ re.b[nb + 1] <= hi.b[nb + 1]
+\* whatever the interleaving: the implicit overflow bucket of a report never claims more observations than the event's count
+\* IN THE SAME REPORT (it is "what is left after the configured buckets", never negative, never wrapped)
+OverflowWithinCount(nb, re) == nb = 0 \/ re.b[nb + 1] <= re.c
 
 \* successive reports of one observer never go down (counts; sums too when no magnitude is negative)
 EventReportMonotone(prev, re, nb) ==
